@@ -13,7 +13,7 @@ use mos_core::io::BinaryWriter;
 use mos_core::parser;
 use mos_core::parser::code_map::SpanLoc;
 use mos_core::parser::source::ParsingSource;
-use mos_core::parser::{IdentifierPath, ParseTree};
+use mos_core::parser::{Identifier, IdentifierPath, ParseTree};
 use std::collections::HashMap;
 use std::fmt::{Debug, Display, Formatter};
 use std::ops::DerefMut;
@@ -213,7 +213,24 @@ impl TestRunner {
         );
 
         let tree = ctx.tree().clone();
-        let test_elements = ctx.remove_test_elements();
+        // Assertions and traces are found by address: only those of the bank that is loaded can be meant
+        let in_test_bank = |name: &Option<Identifier>| {
+            name.as_ref()
+                .and_then(|name| ctx.segments().get(name))
+                .map(|s| s.options().bank.as_ref() == Some(&segment_bank))
+                .unwrap_or(true)
+        };
+        let keep = ctx
+            .test_elements()
+            .iter()
+            .map(|e| match e {
+                TestElement::Assertion(a) => in_test_bank(&a.segment),
+                TestElement::Trace(t) => in_test_bank(&t.segment),
+            })
+            .collect::<Vec<_>>();
+        let mut keep = keep.into_iter();
+        let mut test_elements = ctx.remove_test_elements();
+        test_elements.retain(|_| keep.next().unwrap_or(true));
         Ok(Self {
             ctx: Arc::new(Mutex::new(ctx)),
             tree,
